@@ -109,7 +109,7 @@ def scenario(state, order, sched_seed, watchdog):
                 os.close(nul)
             except OSError:
                 pass
-            for k in range(3):
+            for k in range(8):
                 try:
                     srv.notify("textDocument/didOpen", {"textDocument": {"uri": "file://%s/extra%d.asm" % (d, k), "languageId": "asm", "version": 1, "text": "lda undefined%d\n" % k}})
                 except Exception:
